@@ -297,7 +297,7 @@ def run_integrated(case):
     def flow(th, x):
         if nP:
             model.parameters = list(th)
-        return ref_solve(lambda t, y: np.asarray(model.ode(y, t), float).ravel(), x, 0.0, ts)
+        return ref_solve(lambda t, y: np.asarray(model.ode(y, t), float).ravel(), x, 0.0, ts, max_norm=100.0)
 
     base = flow(th0, x0)
     if base is None:
@@ -327,6 +327,9 @@ def run_integrated(case):
             ok = False
     if not ok:
         return {"nontrivial": False, "mismatches": mism, "violations": viol, "tags": tags + ["integration-skipped"]}
+    if max(float(np.max(np.abs(dth))) if nP else 0.0, float(np.max(np.abs(dx0)))) > 1e3:
+        # close to a finite-time blow-up: neither the finite differences nor the integration are trustworthy to 1e-5
+        return {"nontrivial": False, "mismatches": mism, "violations": viol, "tags": tags + ["ill-conditioned-skipped"]}
     if nP:
         model.parameters = list(th0)
     big = 0.0
